@@ -1149,7 +1149,10 @@ fn gather_script_ids(ast: &ast::ScriptFile, ctx: &mut CompilerContext) -> Result
         match &item.value {
             &ast::Item::Script { number, ref ident, .. } => {
                 let script_id = number.unwrap_or(sp!(ident.span => next_auto_script));
-                next_auto_script = script_id.value + 1;
+                next_auto_script = script_id.value.checked_add(1).ok_or_else(|| ctx.emitter.emit(error!(
+                    message("script number too large"),
+                    primary(script_id, "no script can follow this one"),
+                )))?;
 
                 // give a better error on redefinitions than the generic "ambiguous auto const" message
                 match script_ids.entry(ident.value.clone()) {
